@@ -93,7 +93,7 @@ SPECS["C12"] = dict(
         dict(name="hints", pkg="sdk/go/keepclient", harness=["keepclient/c12_sorter.go", "keepclient/c11_put.go"], entry="GosymH_C12_hints",
              params=dict(quick=dict(hints=2), thorough=dict(hints=3)), witnesses=["done"]),
         dict(name="put-order", pkg="sdk/go/keepclient", harness=["keepclient/c12_sorter.go", "keepclient/c11_put.go"], entry="GosymH_C12_putorder", stubs=[C11_STUB], replay="engine",
-             params=dict(quick=dict(services=2), thorough=dict(services=3)), witnesses=["done"]),
+             params=dict(quick=dict(services=2, maxretries=1), thorough=dict(services=3, maxretries=2)), witnesses=["done", "retry-round"]),
         dict(name="balancer", pkg="services/keep-balance", harness=["keepbalance/c12_rank.go", "keepbalance/c05_balance.go", "keepbalance/util.go"], entry="GosymH_C12_balancer",
              params=dict(quick=dict(servers=2), thorough=dict(servers=3)), witnesses=["trashed-all-but-first", "pulled-to-first"]),
     ],
@@ -134,7 +134,8 @@ SPECS["C19"] = dict(
              params=dict(quick=dict(secretlen=3), thorough=dict(secretlen=5)), witnesses=["done"]),
         dict(name="keepstore", pkg="services/keepstore", harness=["keepstore/c19_remote.go", "keepstore/c07_handler.go", "keepstore/c01_stub.go", "keepstore/util.go"],
              entry="GosymH_C19_keepstore", replay="engine",
-             stubs=C07_STUBS + ["(*git.arvados.org/arvados.git/sdk/go/keepclient.KeepClient).Get=gosymRemoteGet"], witnesses=["forwarded", "refused"]),
+             stubs=C07_STUBS + ["(*git.arvados.org/arvados.git/sdk/go/keepclient.KeepClient).Get=gosymRemoteGet", "git.arvados.org/arvados.git/sdk/go/arvadosclient.New=gosymArvNew",
+                               "git.arvados.org/arvados.git/sdk/go/keepclient.MakeKeepClient=gosymMakeKC"], witnesses=["forwarded", "refused", "discovery"]),
     ],
 )
 
@@ -205,6 +206,7 @@ SPECS["C03"] = dict(
              params=dict(quick=dict(maxlen=1, services=1, retries=1), thorough=dict(maxlen=2, services=2, retries=0)), witnesses=["read-ok", "read-error", "get-error"]),
         dict(name="cache", pkg="sdk/go/keepclient", harness=["keepclient/c03_get.go"], entry="GosymH_C03_cache",
              params=dict(quick=dict(maxlen=1), thorough=dict(maxlen=2)), witnesses=["readat-ok", "readat-error", "retry-ok"]),
+        dict(name="fsread", pkg="sdk/go/arvados", harness=["arvados/c03_fsread.go", "arvados/fskeep.go"], entry="GosymH_C03_fsread", witnesses=["read-to-eof", "read-error"]),
     ],
 )
 
@@ -256,6 +258,8 @@ SPECS["C14"] = dict(
              params=dict(quick=dict(containers=2), thorough=dict(containers=2)), witnesses=["lingering-killed", "done"]),
         dict(name="poolstart", pkg="lib/dispatchcloud/worker", harness=["worker/pool.go"], entry="GosymH_C14_poolstart", stubs=WORKER_STUBS, replay="engine",
              params=dict(quick=dict(workers=2), thorough=dict(workers=3)), witnesses=["started", "refused"]),
+        dict(name="probe", pkg="lib/dispatchcloud/worker", harness=["worker/pool.go"], entry="GosymH_C14_probe", stubs=WORKER_STUBS, replay="engine",
+             witnesses=["done", "live-process-seen", "inherited-worker-became-idle"]),
         dict(name="bookkeeping", pkg="lib/dispatchcloud/worker", harness=["worker/pool.go"], entry="GosymH_C14_bookkeeping", stubs=WORKER_STUBS, replay="engine",
              witnesses=["exit-recorded", "done"]),
     ],
@@ -377,5 +381,21 @@ SPECS["C17"] = dict(
     runs=[
         dict(name="copy", pkg="lib/crunchrun", harness=["crunchrun/c17_copier.go"], entry="GosymH_C17_copy", replay="engine", witnesses=["copied", "copy-refused"],
              max_steps=400000, unwind_violation=True, bound="a copy that does not finish within 400000 interpreted instructions (the unchanged tree needs < 40000) is reported as following links forever"),
+    ],
+)
+
+
+# Engine self-test: not a property, not in MANIFEST.json.  ./check SELFTEST
+ST_H = ["selftest/intrinsics.go"]
+SPECS["SELFTEST"] = dict(
+    level="other",
+    outside="intrinsics not listed in harness/selftest/intrinsics.go (file-system model, scheduler, fmt verbs other than %d %x %08x %s)",
+    assumptions=["reference implementations in the harness are interpreted instruction by instruction; the intrinsic under test is the engine's model"],
+    runs=[
+        dict(name="strings", pkg="sdk/go/blockdigest", harness=ST_H, entry="GosymH_ST_strings", witnesses=["done"]),
+        dict(name="strconv", pkg="sdk/go/blockdigest", harness=ST_H, entry="GosymH_ST_strconv", witnesses=["done"]),
+        dict(name="regexp", pkg="sdk/go/blockdigest", harness=ST_H, entry="GosymH_ST_regexp", witnesses=["done", "matched"]),
+        dict(name="time", pkg="sdk/go/blockdigest", harness=ST_H, entry="GosymH_ST_time", replay="engine", witnesses=["done"]),
+        dict(name="hex", pkg="sdk/go/blockdigest", harness=ST_H, entry="GosymH_ST_hex", witnesses=["done"]),
     ],
 )
